@@ -67,9 +67,12 @@ class ViolationBuilder:
         Returns:
             Violation object with details about the magic number
         """
-        message = f"Magic number {value} should be a named constant"
+        value_text = _show(value)
+        message = f"Magic number {value_text} should be a named constant"
 
-        suggestion = f"Extract {value} to a named constant (e.g., CONSTANT_NAME = {value})"
+        suggestion = (
+            f"Extract {value_text} to a named constant (e.g., CONSTANT_NAME = {value_text})"
+        )
 
         return Violation(
             rule_id=self.rule_id,
